@@ -3,6 +3,7 @@ import Dcg.Proofs.SortPost
 import Dcg.Proofs.SortAction
 import Dcg.Proofs.Repoint
 import Dcg.Proofs.RepointLive
+import Dcg.Proofs.Collapse
 /-
 C11 — no model is lost or duplicated, eager dependencies are defined first, ordering terminates.
 Only property theorems live here; helper lemmas are in Dcg/Proofs/Sort.lean.
@@ -488,5 +489,98 @@ example : (repointLive (fun _ => true) 1 0 10 0 (Store.ofLists [(0, []), (1, [10
     (fun s => s.kids 1) = some [11, 13, 15] := by decide
 
 end Repoint
+
+/-! ### `Parser.__collapse_root_models` (Model/Collapse.lean) -/
+section Collapse
+open Dcg.Model.Collapse Dcg.Proofs.Collapse
+
+/-- a model as `Model/Collapse` sees it (the sorter's `Model` is open in this file too) -/
+abbrev CModel := Dcg.Model.Collapse.Model
+
+/-- (1) `--collapse-root-models` loses no model that is not a root model and duplicates none: whenever the pass is
+inside the model, the list that is written is a SUB-LIST of the list handed to the pass (order kept, nothing twice
+that was not twice before; reference, root flag and base classes of every model unchanged — only members are
+rewritten), and every model that is not a root model is still there. -/
+theorem collapse_sublist_keeps_nonroot (ext : List Nat) (ms out : List CModel) (h : collapse ext ms = some out) :
+    (out.map key).Sublist (ms.map key) ∧ ∀ m ∈ ms, m.root = false → ∃ m' ∈ out, key m' = key m := by
+  unfold collapse pass at h
+  cases hg : go ext [] ms [] with
+  | none => rw [hg] at h; cases h
+  | some r =>
+    obtain ⟨ms', un⟩ := r
+    rw [hg] at h
+    simp at h
+    subst h
+    have hk := go_keys ext ms [] [] ms' un hg
+    simp at hk
+    refine ⟨?_, ?_⟩
+    · rw [← hk]
+      exact (removeUnused_sublist ms' un).map key
+    · intro m hm hr
+      have : key m ∈ ms'.map key := by rw [hk]; exact List.mem_map_of_mem hm
+      obtain ⟨m', hm', hkm⟩ := List.mem_map.mp this
+      have hr' : m'.root = false := by
+        have := congrArg (fun k => k.2.1) hkm
+        simp [key] at this
+        rw [this]; exact hr
+      exact ⟨m', removeUnused_keeps_nonroot ms' un m' hm' hr', hkm⟩
+
+example : collapse [] [⟨0, false, [[⟨1, false, true⟩]], []⟩, ⟨1, true, [[]], []⟩] = some [⟨0, false, [[]], []⟩] := by decide
+
+/-- what is removed is a root model that the pass put on `unused_models` -/
+theorem collapse_removes_only_unused_roots (ms : List CModel) (un : List Nat) (m : CModel) (h : m ∈ ms)
+    (hn : m ∉ removeUnused ms un) : m.root = true ∧ m.name ∈ un :=
+  removeUnused_removed_is_root ms un m h hn
+
+/-- (3) a root model that is still the base class of a model of the list (the `class B(A): pass` written by
+--reuse-model; /repo a4c2957), or that has a user outside the list, never gets onto `unused_models`: it stays. -/
+theorem collapse_keeps_base_class (ext : List Nat) (ms ms' : List CModel) (un : List Nat) (x : Nat)
+    (h : pass ext ms = some (ms', un))
+    (hu : ext.contains x = true ∨ ∃ b ∈ ms, b.bases.contains x = true) : x ∉ un := by
+  intro hx
+  unfold pass at h
+  rcases hu with hu | ⟨b, hb, hbx⟩
+  · rcases go_unused ext ms [] [] ms' un h x hx with h1 | h1
+    · cases h1
+    · rw [hu] at h1; cases h1
+  · have := go_unused_base ext x ms [] [] ms' un h ⟨b, Or.inr hb, hbx⟩ hx
+    cases this
+
+/-- non-vacuity of (3), and the repaired defect itself: R (root) is inlined into A.x but stays because B(R) -/
+example : collapse [] [⟨0, true, [[]], []⟩, ⟨1, false, [[⟨0, false, true⟩]], []⟩, ⟨2, true, [], [0]⟩]
+    = some [⟨0, true, [[]], []⟩, ⟨1, false, [[]], []⟩, ⟨2, true, [], [0]⟩] := by decide
+
+/-- (2) full strength — FALSE of the code: after the pass no member and no base class of a remaining model refers
+to a model of the list that is gone. -/
+def CollapseLeavesNoDanglingReference : Prop :=
+  ∀ (ext : List Nat) (ms out : List CModel), allRegistered ms = true → collapse ext ms = some out → dangling ms out = []
+
+/-- the witness A{x: R1}, R1 = $ref R2, R2 = array (a root model), handed over in the order A, R1, R2 (what
+`sort_data_models` does when the three are on a reference cycle): A.x gets a copy of R1's data type, which refers to
+R2 but is not in `R2.reference.children`; R1 and then R2 are found unused and removed; A.x refers to R2, which is
+gone.  Replayed on the real generator: known finding C11-collapse-dangling-alias. -/
+def danglingWitness : List CModel :=
+  [⟨0, false, [[⟨1, false, true⟩]], []⟩, ⟨1, true, [[⟨2, false, true⟩]], []⟩, ⟨2, true, [[]], []⟩]
+
+theorem collapse_dangling_without_order : ¬ CollapseLeavesNoDanglingReference := by
+  intro h
+  have := h [] danglingWitness [⟨0, false, [[⟨2, false, false⟩]], []⟩] (by decide) (by decide)
+  revert this
+  decide
+
+/-- the same three models with every user AFTER the root model it uses (`rootsFirst`): nothing dangles, both root
+models are inlined completely -/
+example : rootsFirst [] [danglingWitness[2]!, danglingWitness[1]!, danglingWitness[0]!] [danglingWitness[2]!, danglingWitness[1]!, danglingWitness[0]!] = true
+    ∧ collapse [] [danglingWitness[2]!, danglingWitness[1]!, danglingWitness[0]!] = some [⟨0, false, [[]], []⟩] := by decide
+
+/-- (4) the pass is NOT idempotent: with A{x: R1}, R1 = $ref R2 visited in the order A, R1 and R2 kept alive as the
+base class of C, one run leaves A.x referring to the root model R2 (the unvisited copy); a second run inlines it. -/
+theorem collapse_not_idempotent :
+    ∃ ms one two, collapse [] ms = some one ∧ collapse [] one = some two ∧ one ≠ two :=
+  ⟨[⟨0, false, [[⟨1, false, true⟩]], []⟩, ⟨1, true, [[⟨2, false, true⟩]], []⟩, ⟨2, true, [[]], []⟩, ⟨3, true, [], [2]⟩],
+   [⟨0, false, [[⟨2, false, false⟩]], []⟩, ⟨2, true, [[]], []⟩, ⟨3, true, [], [2]⟩],
+   [⟨0, false, [[]], []⟩, ⟨2, true, [[]], []⟩, ⟨3, true, [], [2]⟩], by decide, by decide, by decide⟩
+
+end Collapse
 
 end Dcg.Props.C11
